@@ -26,10 +26,11 @@ type Style struct {
 }
 
 type renderer struct {
-	st  Style
-	sb  strings.Builder
-	nl  string
-	ind string
+	st    Style
+	ncomm int
+	sb    strings.Builder
+	nl    string
+	ind   string
 }
 
 func (r *renderer) on(enabled bool) bool {
@@ -60,7 +61,7 @@ func (st Style) Render(root *Node) string {
 		r.ind = ""
 	}
 	if r.on(st.Comments) {
-		r.sb.WriteString("# leading comment" + r.nl)
+		r.sb.WriteString("# leading comment" + r.nl + "#" + r.nl)
 	}
 	if r.on(st.Comments) {
 		r.sb.WriteString("###" + r.nl + "block { [ \" comment" + r.nl + "###" + r.nl)
@@ -154,7 +155,13 @@ func (r *renderer) tail(n *Node, comma bool, level int) {
 
 func (r *renderer) eol() {
 	if r.on(r.st.Comments) {
-		r.sb.WriteString(" # c")
+		// every third user comment is empty
+		r.ncomm++
+		if r.ncomm%3 == 2 {
+			r.sb.WriteString(" #")
+		} else {
+			r.sb.WriteString(" # c")
+		}
 	}
 	if r.on(r.st.ExtraBlank) {
 		r.sb.WriteString("  ")
